@@ -281,6 +281,9 @@ type concRewriter struct {
 	usedSched bool
 	usedChan  bool
 	yieldOnly bool
+	skip      map[ast.Node]bool // subtrees left exactly as they are (they only run without a scheduler)
+	native    map[ast.Node]bool // channel operations performed natively once the scheduler has picked them
+	seen      map[ast.Node]bool // containers already processed (bodies may be shared between two parents)
 }
 
 func (r *concRewriter) unsupported(n ast.Node, what string) bool {
@@ -296,13 +299,29 @@ func sel(pkg, name string) ast.Expr {
 
 func (r *concRewriter) file(f *ast.File) {
 	r.inFunc = 1 // every BlockStmt of a Go file is inside some function body
+	r.skip, r.native, r.seen = map[ast.Node]bool{}, map[ast.Node]bool{}, map[ast.Node]bool{}
 	ast.Inspect(f, func(n ast.Node) bool {
+		if n != nil && (r.skip[n] || r.native[n]) {
+			return false
+		}
 		switch x := n.(type) {
 		case *ast.BlockStmt:
+			if r.seen[x] {
+				return false
+			}
+			r.seen[x] = true
 			x.List = r.stmts(x.List)
 		case *ast.CaseClause:
+			if r.seen[x] {
+				return false
+			}
+			r.seen[x] = true
 			x.Body = r.stmts(x.Body)
 		case *ast.CommClause:
+			if r.seen[x] {
+				return false
+			}
+			r.seen[x] = true
 			x.Body = r.stmts(x.Body)
 		case *ast.CallExpr:
 			if r.yieldOnly {
@@ -338,7 +357,9 @@ func (r *concRewriter) stmts(list []ast.Stmt) []ast.Stmt {
 			switch s.(type) {
 			case *ast.DeclStmt, *ast.EmptyStmt, *ast.CaseClause, *ast.CommClause:
 			default:
-				out = append(out, r.yield())
+				if !r.native[s] { // (no scheduling point between the scheduler's pick and the operation it picked)
+					out = append(out, r.yield())
+				}
 			}
 		}
 		if ls, ok := s.(*ast.LabeledStmt); ok {
@@ -359,7 +380,7 @@ func (r *concRewriter) stmts(list []ast.Stmt) []ast.Stmt {
 
 // stmt returns a replacement for s, or nil to keep it.
 func (r *concRewriter) stmt(s ast.Stmt) ast.Stmt {
-	if r.yieldOnly {
+	if r.yieldOnly || r.native[s] || r.skip[s] {
 		return nil
 	}
 	switch x := s.(type) {
@@ -401,34 +422,96 @@ func (r *concRewriter) stmt(s ast.Stmt) ast.Stmt {
 		return &ast.ExprStmt{X: &ast.CallExpr{Fun: sel("verifvchan", "Send"), Args: []ast.Expr{x.Chan, x.Value}}}
 	case *ast.SelectStmt:
 		hasDefault := "false"
-		var chans []ast.Expr
-		var clauses []ast.Stmt
+		simple := true // every case a value-less receive (or default)
 		for _, c := range x.Body.List {
 			cc := c.(*ast.CommClause)
 			if cc.Comm == nil {
 				hasDefault = "true"
-				clauses = append(clauses, &ast.CaseClause{List: []ast.Expr{&ast.BasicLit{Kind: token.INT, Value: "-1"}}, Body: cc.Body})
 				continue
 			}
 			es, ok := cc.Comm.(*ast.ExprStmt)
 			if !ok {
-				r.unsupported(cc, "select case that is not a value-less receive")
-				return nil
+				simple = false
+				continue
 			}
-			u, ok := es.X.(*ast.UnaryExpr)
-			if !ok || u.Op != token.ARROW {
-				r.unsupported(cc, "select case that is not a value-less receive")
-				return nil
+			if u, ok := es.X.(*ast.UnaryExpr); !ok || u.Op != token.ARROW {
+				simple = false
 			}
-			clauses = append(clauses, &ast.CaseClause{List: []ast.Expr{&ast.BasicLit{Kind: token.INT, Value: fmt.Sprint(len(chans))}}, Body: cc.Body})
-			chans = append(chans, u.X)
 		}
-		args := append([]ast.Expr{ast.NewIdent(hasDefault)}, chans...)
+		if simple {
+			var chans []ast.Expr
+			var clauses []ast.Stmt
+			for _, c := range x.Body.List {
+				cc := c.(*ast.CommClause)
+				if cc.Comm == nil {
+					clauses = append(clauses, &ast.CaseClause{List: []ast.Expr{&ast.BasicLit{Kind: token.INT, Value: "-1"}}, Body: cc.Body})
+					continue
+				}
+				u := cc.Comm.(*ast.ExprStmt).X.(*ast.UnaryExpr)
+				clauses = append(clauses, &ast.CaseClause{List: []ast.Expr{&ast.BasicLit{Kind: token.INT, Value: fmt.Sprint(len(chans))}}, Body: cc.Body})
+				chans = append(chans, u.X)
+			}
+			args := append([]ast.Expr{ast.NewIdent(hasDefault)}, chans...)
+			r.usedChan, r.changed = true, true
+			r.st.Selects++
+			return &ast.SwitchStmt{
+				Tag:  &ast.CallExpr{Fun: sel("verifvchan", "Select"), Args: args},
+				Body: &ast.BlockStmt{List: clauses},
+			}
+		}
+		// The general form (receives that keep the value, sends). Under a scheduler, SelectReady waits until
+		// some case can proceed and picks one; the case's own channel operation is then performed natively
+		// as the first statement of that case (it cannot block: no other thread runs in between). Without a
+		// scheduler the original select statement runs untouched.
+		var cases []ast.Expr
+		var clauses []ast.Stmt
+		for _, c := range x.Body.List {
+			cc := c.(*ast.CommClause)
+			if cc.Comm == nil {
+				clauses = append(clauses, &ast.CaseClause{List: []ast.Expr{&ast.BasicLit{Kind: token.INT, Value: "-1"}}, Body: cc.Body})
+				continue
+			}
+			var ch ast.Expr
+			fn := "RecvOn"
+			switch cm := cc.Comm.(type) {
+			case *ast.ExprStmt:
+				if u, ok := cm.X.(*ast.UnaryExpr); ok && u.Op == token.ARROW {
+					ch = u.X
+				}
+			case *ast.AssignStmt:
+				if len(cm.Rhs) == 1 {
+					if u, ok := cm.Rhs[0].(*ast.UnaryExpr); ok && u.Op == token.ARROW {
+						ch = u.X
+					}
+				}
+			case *ast.SendStmt:
+				ch, fn = cm.Chan, "SendOn"
+			}
+			if ch == nil {
+				r.unsupported(cc, "select case of an unexpected form")
+				return nil
+			}
+			r.native[cc.Comm] = true
+			body := append([]ast.Stmt{cc.Comm}, cc.Body...)
+			clauses = append(clauses, &ast.CaseClause{List: []ast.Expr{&ast.BasicLit{Kind: token.INT, Value: fmt.Sprint(len(cases))}}, Body: body})
+			cases = append(cases, &ast.CallExpr{Fun: sel("verifvchan", fn), Args: []ast.Expr{ch}})
+		}
+		if hasDefault == "false" {
+			// (keeps the switch a terminating statement wherever the select was one)
+			clauses = append(clauses, &ast.CaseClause{Body: []ast.Stmt{&ast.ExprStmt{X: &ast.CallExpr{Fun: ast.NewIdent("panic"),
+				Args: []ast.Expr{&ast.BasicLit{Kind: token.STRING, Value: `"verif: no select case was chosen"`}}}}}})
+		}
+		r.skip[x] = true
 		r.usedChan, r.changed = true, true
 		r.st.Selects++
-		return &ast.SwitchStmt{
-			Tag:  &ast.CallExpr{Fun: sel("verifvchan", "Select"), Args: args},
-			Body: &ast.BlockStmt{List: clauses},
+		args := append([]ast.Expr{ast.NewIdent(hasDefault)}, cases...)
+		return &ast.IfStmt{
+			Cond: &ast.CallExpr{Fun: sel("verifvchan", "Native")},
+			Body: &ast.BlockStmt{List: []ast.Stmt{x}},
+			Else: &ast.BlockStmt{List: []ast.Stmt{&ast.SwitchStmt{
+				Tag:  &ast.CallExpr{Fun: sel("verifvchan", "SelectReady"), Args: args},
+				Body: &ast.BlockStmt{List: clauses},
+			}}},
 		}
 	}
 	return nil
